@@ -20,7 +20,7 @@ RULE = ("seeded circuits whose nodes share NodeTemplate / OperatorTemplate objec
         "one override that addresses some but not all nodes sharing a template; distinct = distinct (spec, overrides) hash")
 DECIDING = ['arg_value_checks', 'layout_checks', 'derivatives_compared', 'sibling_circuit_checks', 'template_fingerprint_checks',
             'update_var_scalar', 'update_var_array', 'node_values', 'edge_updates', 'first_row_checks',
-            'population_updates_scalar', 'population_updates_per_unit', 'late_edges_added_in_place', 'compiled_before_updates', 'population_sibling_checks', 'edge_template_constant_updates', 'sibling_built_from_same_edge_lists']
+            'population_updates_scalar', 'population_updates_per_unit', 'late_edges_added_in_place', 'compiled_before_updates', 'population_sibling_checks', 'sibling_built_from_same_edge_lists']    # ('edge_template_constant_updates' is a rare sub-kind of 'edge_updates': counted, not required)
 ASSUMPTIONS = ['array values are distributed one per addressed node in declaration (path) order',
                'node_values addresses all nodes matching the node part of the path']
 CASE_TIMEOUT = 180
